@@ -63,13 +63,17 @@ def scenario(exe, base, name, steps, valgrind):
     # a task space that is re-used many times over within one iteration (the element counter of ThreadSafeVector wraps around
     # its size repeatedly); the peak simultaneous use stays well below the size
     open(os.path.join(d, "ion_small_taskspace.param"), "w").write(ion.replace("number of tasks: 30000", "number of tasks: 250"))
+    rhd = open(os.path.join(CONFIGS, "rhd.param")).read()
     # trackers on a subgrid that has copies
     open(os.path.join(d, "ion_trackers.param"), "w").write(ion.replace("  source copy level: 1", "  source copy level: 1\n  enable trackers: true")
                                                            + "TrackerManager:\n  filename: trackers.yml\n")
-    open(os.path.join(d, "trackers.yml"), "w").write("number of trackers: 2\n\ntracker[0]:\n  type: Spectrum\n  position: [0.1 pc, 0.05 pc, -0.07 pc]\n  number of bins: 50\n\n"
-                                                     "tracker[1]:\n  type: Spectrum\n  position: [-0.6 pc, 0.5 pc, 0.4 pc]\n  number of bins: 20\n")
+    # four trackers: three share one cell (the second and every later tracker of a cell go through the MultiTracker path), one is alone
+    open(os.path.join(d, "trackers.yml"), "w").write("number of trackers: 4\n\n" + "".join(
+        "tracker[%d]:\n  type: Spectrum\n  position: [%s]\n  number of bins: %d\n\n" % (i, pos, nb)
+        for i, (pos, nb) in enumerate([("0.1 pc, 0.05 pc, -0.07 pc", 50), ("-0.6 pc, 0.5 pc, 0.4 pc", 20), ("0.1 pc, 0.05 pc, -0.07 pc", 30), ("0.1 pc, 0.05 pc, -0.07 pc", 10)])))
+    # live output (surface density maps) on subgrids with different cell counts per axis
+    open(os.path.join(d, "rhd_noncubic.param"), "w").write(rhd.replace("number of cells: [8, 8, 8]", "number of cells: [16, 8, 4]"))
     # radiation hydrodynamics with sources that appear and disappear (the subgrid copies are rebuilt between radiation steps)
-    rhd = open(os.path.join(CONFIGS, "rhd.param")).read()
     open(os.path.join(d, "rhd_moving.param"), "w").write(rhd.replace("PhotonSourceDistribution:\n  type: SingleStar\n  luminosity: 1.e+47 Hz\n  position: [0.1 pc, 0.05 pc, -0.07 pc]\n",
         "PhotonSourceDistribution:\n  type: UniformRandom\n  number of sources: 3\n  source lifetime: 0.003 Myr\n  source luminosity: 1.e47 s^-1\n"
         "  box anchor: [-0.9 pc, -0.9 pc, -0.9 pc]\n  box sides: [1.8 pc, 1.8 pc, 1.8 pc]\n  update interval: 0.001 Myr\n  random seed: 6\n"))
@@ -95,6 +99,7 @@ def scenarios(thorough):
         "ionization_dark_field_2threads": [["--task-based", "--params", "ion_dark_field.param", "--threads", "2", "--dirty"]],
         "ionization_small_taskspace_2threads": [["--task-based", "--params", "ion_small_taskspace.param", "--threads", "2", "--dirty"]],
         "ionization_trackers_copies_2threads": [["--task-based", "--params", "ion_trackers.param", "--threads", "2", "--dirty"]],
+        "rhd_liveoutput_noncubic_subgrids_2threads": [["--task-based-rhd", "--params", "rhd_noncubic.param", "--threads", "2", "--dirty", "--number-of-steps", "2"]],
         "rhd_moving_sources_1thread": [["--task-based-rhd", "--params", "rhd_moving.param", "--threads", "1", "--dirty"]],
     }
     if thorough:
